@@ -294,9 +294,17 @@ def run(chk, facts):
         ok = after is not None and not unc and all(pos_of(after[("space", fl, li)]) == (3, 8) for fl in (False, True) for li in (1, 5))
         chk.ob("R-C18-2", "State::space", ok, "a space advances the caret by one column (State::space folded)" if ok else f"State::space no longer advances by one column {why}", facts.loc_of(sp))
         op = syn.one_fn("offset_pos", impl_of="CaretPos")
-        ov = se.ev(op["body"], {"self": ("var", "self"), "offset": ("var", "offset")})
-        ok = ov[0] == "core" and ov[1] in ("CaretPos", "Self") and ov[2].get("pos") == ("bin", "+", ("var", "self.pos"), ("var", "offset")) and \
-            (ov[2].get("line") == ("var", "self.line") or (ov[2].get("..") == ("var", "self") and "line" not in ov[2]))
+        # folded over three (position, offset) pairs: the line stays, the column grows by the offset - however the sum is written
+        from .smalleval import SmallEval as _SEo, NoEval as _NEo
+        try:
+            ev_o2 = _SEo(funcs={"CaretPos::new": lambda l_, p_: {"line": l_, "pos": p_}})
+            ok = True
+            for (l_, c_, o_) in ((3, 7, 5), (10, 1, 0), (1, 1, 12)):
+                r_ = ev_o2.call(op, [{"__struct__": "CaretPos", "line": l_, "pos": c_}, o_])
+                ok = ok and isinstance(r_, dict) and r_.get("line") == l_ and r_.get("pos") == c_ + o_
+            ok = ok and not ev_o2.uncovered()
+        except _NEo:
+            ok = False
         chk.ob("R-C18-2", "CaretPos::offset_pos", ok, "offset_pos adds the offset to the column" if ok else "CaretPos::offset_pos changed", facts.loc_of(op))
     except AnchorError as e:
         chk.anchor_fail("R-C18-2", e)
